@@ -174,4 +174,14 @@ def gc {Name : Type} [DecidableEq Name] (env : Env Oid) (hashName : Name) (readO
     if dry then .ok n store
     else .ok n (store.filter fun o => o ∉ dirPaths ∧ o ∉ filePaths)
 
+/-- the `<oid>.dir.unpacked` leftovers of DVC 1.x next to directory objects of a local store: a real run takes the one of
+    every directory object it removes along (`_remove_unpacked_dir`); a dry run, a refused run and a run that fails to
+    expand a used directory touch none -/
+def gcLeftovers {Name : Type} [DecidableEq Name] (env : Env Oid) (hashName : Name) (readOnly shallow dry : Bool)
+    (store : List Oid) (used : List (Name × Oid)) (extras : List Oid) : List Oid :=
+  if dry then extras else
+  match gc env hashName readOnly shallow dry store used with
+  | .ok _ st => extras.filter fun o => !(store.contains o && env.isDir o) || st.contains o
+  | _ => extras
+
 end DvcData.Status
